@@ -5,7 +5,9 @@ pub mod c01;
 pub mod c02;
 pub mod c03;
 pub mod c05;
+pub mod c07;
 pub mod c10;
+pub mod c13;
 pub mod values;
 pub mod common;
 pub mod predicates;
@@ -16,7 +18,9 @@ pub fn lookup(id: &str) -> Option<Box<dyn Property + Send>> {
         "C02" => Some(Box::new(c02::C02)),
         "C03" => Some(Box::new(c03::C03)),
         "C05" => Some(Box::new(c05::C05)),
+        "C07" => Some(Box::new(c07::C07)),
         "C10" => Some(Box::new(c10::C10)),
+        "C13" => Some(Box::new(c13::C13)),
         _ => None,
     }
 }
